@@ -270,3 +270,6 @@ LEVEL_NOTE = ("Trusted: Lean kernel; harness + driver; the INSDC grammar/denotat
 
 HARNESS_BIN = "run-genbank"
 EXTRACT_BINS = ["extract-seq"]
+
+# the same requests executed 8 at a time in concurrent goroutines (check: PARALLEL / harness: VERIF_PAR)
+PARALLEL = {"quick": {"par": 8, "max_cases": 4000}, "thorough": {"par": 8, "max_cases": 40000, "race": True}}
